@@ -19,7 +19,7 @@ RULE = ("pop-on programs built from an abstract model: per caption [ENM] RCL, 1-
         "doubled as a unit). Compared with an independent grid decoder whose tables are "
         "computed from the bit layout. Exhaustive legs: all 480 PAC words x {no TO, TO1-3} x "
         "{single, doubled}; each of the 95+16+64 character codes in three contexts; all "
-        "sequences of <=3 (thorough <=5) actions over a 9-action alphabet, single and doubled. "
+        "sequences of <=4 (thorough <=6) actions over a 9-action alphabet, single and doubled. "
         "Non-trivial: >= 2 rows, or a non-basic character, or italics, or doubled codes, or >= "
         "2 captions. "
         'The SCCReader object is fresh or has a past (an ok document ending on a generated '
@@ -231,7 +231,7 @@ ACTIONS = "NFTCSXIPB"   # next-row PAC, far-row PAC, TO, chars, special, extende
 
 
 def seq_chunks(tier):
-    maxlen = 3 if tier == "quick" else 5
+    maxlen = 4 if tier == "quick" else 6
     chunks = []
     for n in range(1, maxlen + 1):
         if n <= 3:
@@ -288,10 +288,9 @@ def _seq_program(seq, dbl):
             if not cur["items"] or cur["items"][-1][0] not in ("c", "c1", "sp", "ex"):
                 return None
             cur["items"].append(["bs"])
-    if any(not any(i[0] in ("c", "c1", "sp", "ex") for i in r["items"]) for r in rows):
-        for r in rows:
-            if not any(i[0] in ("c", "c1", "sp", "ex") for i in r["items"]):
-                r["items"].append(["c", "zz"])
+    for r in rows:
+        if not SP._row_visible(r["items"]):     # every row keeps a visible character
+            r["items"].append(["c", "zz"])
     return _one_caption(rows, dbl)
 
 
